@@ -381,7 +381,10 @@ def predictions(case, kpaths, seed, n):
             # solved (in order) by z3, which gives the values of the purification variables for this input
             hs = z3.Solver(); hs.set('timeout', 20000)
             hs.add([eval_term(h, subs) for h in chosen.dom.hyp])
+            for t in getattr(chosen.dom, 'nz', []):       # divisors must be non-zero for this input, otherwise the quotient is not determined
+                hs.add(eval_term(t[1], subs) >= 0 if isinstance(t, tuple) else eval_term(t, subs) != 0)
             if hs.check() == z3.sat: hm = hs.model()
+            else: continue
         for a in case.args:
             if isinstance(a, Scal) or a.role == 'in': continue
             vals = []
